@@ -165,7 +165,12 @@ class ArrayConstraintBuilder(ConstraintOverrideVisitor):
             if f.is_rand_sz:
                 size_bound = self.bound_m[f.size]
                 range_l = size_bound.domain.range_l
-                max_size = int(range_l[-1][1])
+                if len(range_l) > 0:
+                    max_size = int(range_l[-1][1])
+                else:
+                    # No size is legal. Leave the list as it is: the 
+                    # solver reports the failure
+                    max_size = len(f.field_l)
 
                 # Composite arrays have a maximum size of their
                 # current size, since the user must populate them
